@@ -125,10 +125,10 @@ def build(harnesses, verbose=False):
         key = tree_hash()
         root = os.path.join(BUILD, key)
         os.makedirs(root, exist_ok=True)
-        # garbage-collect older trees (keep the two most recent besides this one)
+        # garbage-collect older trees (keep the twelve most recently used besides this one; a running check touches its tree at every leg)
         olds = sorted([d for d in os.listdir(BUILD) if d != key and os.path.isdir(os.path.join(BUILD, d))],
                       key=lambda d: os.path.getmtime(os.path.join(BUILD, d)))
-        for d in olds[:-3]:
+        for d in olds[:-12]:
             shutil.rmtree(os.path.join(BUILD, d), ignore_errors=True)
         os.utime(root, None)
         specs = {}
